@@ -1547,13 +1547,42 @@ pub fn gen_cycle_case(r: &mut Rng) -> Case {
                 // half of the counters join two calls, so that diverging revisions have nested heads
                 let src = if r.chance(1, 2) { E::Call(j) } else { E::BOr(Box::new(E::Call(j)), Box::new(E::Call(r.usize(n)))) };
                 let inc = E::Add(Box::new(src), Box::new(E::C(1)));
-                (Kind::Fix, E::If(Box::new(E::In(0)), Box::new(inc), Box::new(gen_mono(r, n, prog.ninputs, 2))))
+                if q > 0 && r.chance(1, 3) {
+                    // a reader that does not look at the input steering divergence itself: its
+                    // validation walks into the (possibly poisoned) cycle members first
+                    (Kind::Fix, E::BOr(Box::new(E::Call(r.usize(q))), Box::new(gen_mono(r, q, prog.ninputs, 1))))
+                } else {
+                    (Kind::Fix, E::If(Box::new(E::In(0)), Box::new(inc), Box::new(gen_mono(r, n, prog.ninputs, 2))))
+                }
             }
         };
         prog.nodes.push((kind, body));
     }
     let init: Vec<(u32, u8)> = (0..prog.ninputs).map(|_| (r.below(256) as u32, if r.chance(2, 3) { 0 } else { r.below(3) as u8 })).collect();
     let mut ops = vec![];
+    if flavour == 3 && r.chance(1, 3) {
+        // directed history for diverging programs: converge (input 0 even) and memoise some readers,
+        // diverge (odd) and ask (too-many-iterations panic), converge again and ask a READER of the
+        // revision-1 results first — recovery must not depend on which function is asked first
+        let mut init = init.clone();
+        init[0].0 &= !1;
+        for _ in 0..1 + r.usize(3) {
+            ops.push(Op::Get(r.usize(n)));
+        }
+        ops.push(Op::Set(0, r.below(128) as u32 * 2 + 1, None));
+        for _ in 0..1 + r.usize(2) {
+            ops.push(Op::Get(r.usize(n)));
+        }
+        ops.push(Op::Set(0, r.below(128) as u32 * 2, None));
+        for _ in 0..2 + r.usize(3) {
+            ops.push(Op::Get(r.usize(n)));
+        }
+        if r.chance(1, 2) {
+            ops.push(Op::Set(r.usize(prog.ninputs), r.below(256) as u32, None));
+            ops.push(Op::Get(r.usize(n)));
+        }
+        return Case { prog, init, ops };
+    }
     let len = 4 + r.usize(20);
     for _ in 0..len {
         let x = r.below(100);
